@@ -208,6 +208,7 @@ type loopInfo struct {
 	heapKeys  []heapKeySort
 	allocates bool
 	rangeIdx  *ssa.Alloc
+	rangeLen  ssa.Value // len(x) of the ranged slice, computed before the loop
 	rangeIter *ssa.Range
 	pos       token.Pos
 }
@@ -275,6 +276,17 @@ func (v *Verifier) loopInfo(fn *ssa.Function) map[*ssa.BasicBlock]*loopInfo {
 			if st, ok := in.(*ssa.Store); ok {
 				if a, ok := st.Addr.(*ssa.Alloc); ok && a.Comment == "rangeindex" {
 					li.rangeIdx = a
+				}
+			}
+		}
+		if li.rangeIdx != nil {
+			for _, in := range h.Instrs {
+				if bo, ok := in.(*ssa.BinOp); ok && bo.Op == token.LSS {
+					if c, ok := bo.Y.(*ssa.Call); ok {
+						if b, ok := c.Call.Value.(*ssa.Builtin); ok && b.Name() == "len" {
+							li.rangeLen = c
+						}
+					}
 				}
 			}
 		}
